@@ -173,7 +173,7 @@ class LogicConv2d(_PersistentWiring, nn.Module):
         self.connections = connections
         if connections == "random":
             self.kernel_pairs = self.get_random_receptive_field_pairs()
-        elif connections == "random-unique":
+        elif connections in ("random-unique", "unique"):  # 'unique' is the name LogicDense and the docstring use
             self.kernel_pairs = self.get_random_unique_receptive_field_pairs()
         else:
             raise ValueError(f"Unknown connections type: {connections}")
@@ -501,7 +501,7 @@ class LogicConv3d(_PersistentWiring, nn.Module):
         self.connections = connections
         if connections == "random":
             self.kernel_pairs = self.get_random_receptive_field_pairs()
-        elif connections == "random-unique":
+        elif connections in ("random-unique", "unique"):  # 'unique' is the name LogicDense and the docstring use
             self.kernel_pairs = self.get_random_unique_receptive_field_pairs()
         else:
             raise ValueError(f"Unknown connections type: {connections}")
